@@ -343,6 +343,9 @@ func toLowerCaseKeyMap(m map[string]any, info *fieldInfo) map[string]any {
 			res[k] = toLowerCaseInterface(v, info.mapField)
 		} else if vv, ok := v.(map[string]any); ok {
 			res[k] = toLowerCaseKeyMap(vv, info)
+		} else if vv, ok := v.([]any); ok {
+			// a list below a map key, e.g. []map[string][]struct, holds keys to convert as well
+			res[k] = toLowerCaseInterface(vv, info)
 		} else {
 			res[k] = v
 		}
